@@ -475,24 +475,11 @@ func (c *Ctx) currentRevisionChoice() {
 	if fi == nil {
 		return
 	}
-	fn, an := c.Analysis(fi)
+	fn, anPlain := c.Analysis(fi)
+	fn.KeepDead = true
+	an := fn.Analyze(nil)
+	fn.KeepDead = false
 	info := fi.Pkg.TypesInfo
-	// the first result variable by position: the local returned first in the final return
-	var final *ast.ReturnStmt
-	ast.Inspect(fi.Decl.Body, func(n ast.Node) bool {
-		if ret, ok := n.(*ast.ReturnStmt); ok && len(ret.Results) == 4 {
-			if _, isID := ret.Results[0].(*ast.Ident); isID && !isNilExpr(info, ret.Results[0]) {
-				final = ret
-			}
-		}
-		return true
-	})
-	if final == nil {
-		c.Fail("getStatefulSetRevisions: final return not found")
-		return
-	}
-	cur := info.ObjectOf(final.Results[0].(*ast.Ident))
-	upd := final.Results[1]
 	var setParam *ast.Ident
 	for _, pf := range fi.Decl.Type.Params.List {
 		for _, pn := range pf.Names {
@@ -501,55 +488,161 @@ func (c *Ctx) currentRevisionChoice() {
 			}
 		}
 	}
-	n := 0
-	ast.Inspect(fi.Decl.Body, func(x ast.Node) bool {
-		as, ok := x.(*ast.AssignStmt)
-		if !ok || len(as.Lhs) != 1 || len(as.Rhs) != 1 {
+	if setParam == nil || len(fi.Decl.Type.Params.List) < 2 {
+		c.Fail("getStatefulSetRevisions: parameters not resolved")
+		return
+	}
+	revs := fi.Decl.Type.Params.List[1].Names[0]
+	revsKey := gf.Var(info.ObjectOf(revs)).Key()
+	stored := c.WantTerm(fn, fi.Decl.Body.Lbrace+1, "$1.Status.CurrentRevision", setParam)
+	// Decided on what is returned, path by path at every successful return (first result: current revision,
+	// second: update revision): the current revision is a listed revision named by the stored
+	// status.currentRevision, or it is the update revision (nothing found); and once a listed revision with that
+	// name has been seen, the fall-back to the update revision is no longer reachable.
+	type okRet struct {
+		ret      *ast.ReturnStmt
+		cur, upd *gf.Term
+	}
+	var rets []okRet
+	ast.Inspect(fi.Decl.Body, func(n ast.Node) bool {
+		if _, isLit := n.(*ast.FuncLit); isLit {
+			return false
+		}
+		ret, ok := n.(*ast.ReturnStmt)
+		if !ok || len(ret.Results) < 3 || !isNilExpr(info, ret.Results[len(ret.Results)-1]) || isNilExpr(info, ret.Results[0]) {
 			return true
 		}
-		id, ok := as.Lhs[0].(*ast.Ident)
-		if !ok || info.ObjectOf(id) != cur {
-			return true
+		rets = append(rets, okRet{ret, fn.Term(ret.Results[0]), fn.Term(ret.Results[1])})
+		return true
+	})
+	c.Floor("C12.3-current-revision-choice", len(rets), 1)
+	named := func(t *gf.Term) *gf.Formula {
+		return gf.FEq(gf.Field(gf.Field(t, "ObjectMeta", nil), "Name", nil), stored)
+	}
+	// the places where the returned current revision gets its value: a return of an expression, or the
+	// assignments of the returned variable. Each is judged where it happens (later calls may forget field facts).
+	type valueSite struct {
+		node  ast.Node
+		val   *gf.Term
+		after bool
+		upd   *gf.Term
+		name  string
+	}
+	var sites []valueSite
+	var fallbacks []ast.Node
+	seenVar := map[types.Object]bool{}
+	for i, r := range rets {
+		id, isID := ast.Unparen(r.ret.Results[0]).(*ast.Ident)
+		if r.cur.Key() == r.upd.Key() {
+			fallbacks = append(fallbacks, r.ret)
+			c.OK("C12.3-current-revision-choice", fmt.Sprintf("%s: return[%d] %s", fi.Obj.Name(), i, types.ExprString(r.ret.Results[0])), r.ret.Pos(), "the update revision (nothing found)")
+			continue
 		}
-		n++
-		name := fmt.Sprintf("%s: %s = %s", fi.Obj.Name(), cur.Name(), types.ExprString(as.Rhs[0]))
-		st := an.StateBefore(as)
-		if fn.Term(as.Rhs[0]).Key() == fn.Term(upd).Key() {
-			c.Implies(st, c.Want(fn, as.Pos(), "$1 == nil", id), "C12.3-current-revision-choice", name, as.Pos())
-			return true
+		if !isID {
+			sites = append(sites, valueSite{r.ret, r.cur, false, r.upd, fmt.Sprintf("%s: return[%d] %s", fi.Obj.Name(), i, types.ExprString(r.ret.Results[0]))})
+			continue
 		}
-		// decided on the state after the assignment, path by path: the variable is nil (nothing found),
-		// or it is a cell of the listed revisions whose name is the stored status.currentRevision
-		// (the search may sit in a helper: the engine expands it)
-		revs := fi.Decl.Type.Params.List[1].Names[0]
-		after := an.StateAfter(as)
-		wantName := c.Want(fn, as.End(), "$1.Name == $2.Status.CurrentRevision", id, setParam)
-		isNil := c.Want(fn, as.End(), "$1 == nil", id)
-		okName, okListed := after.Reachable(), after.Reachable()
-		var witness string
-		for _, d := range after.D {
+		v := info.ObjectOf(id)
+		if seenVar[v] {
+			continue
+		}
+		seenVar[v] = true
+		nAs := 0
+		ast.Inspect(fi.Decl.Body, func(x ast.Node) bool {
+			as, ok := x.(*ast.AssignStmt)
+			if !ok || len(as.Lhs) != 1 || len(as.Rhs) != 1 {
+				return true
+			}
+			lid, ok := as.Lhs[0].(*ast.Ident)
+			if !ok || info.ObjectOf(lid) != v {
+				return true
+			}
+			nAs++
+			nm := fmt.Sprintf("%s: %s = %s", fi.Obj.Name(), v.Name(), clip(types.ExprString(as.Rhs[0]), 60))
+			if fn.Term(as.Rhs[0]).Key() == r.upd.Key() {
+				fallbacks = append(fallbacks, as)
+				c.Implies(an.StateBefore(as), gf.FNil(gf.Var(v)), "C12.3-current-revision-choice", nm, as.Pos())
+				return true
+			}
+			sites = append(sites, valueSite{as, gf.Var(v), true, r.upd, nm})
+			return true
+		})
+		if nAs == 0 {
+			sites = append(sites, valueSite{r.ret, r.cur, false, r.upd, fmt.Sprintf("%s: return[%d] %s", fi.Obj.Name(), i, id.Name)})
+		}
+	}
+	for _, vs := range sites {
+		st := an.StateBefore(vs.node)
+		if vs.after {
+			st = anPlain.StateAfter(vs.node)
+		}
+		okAll, okListed := st.Reachable(), true
+		var wit string
+		for _, d := range st.D {
 			one := gf.State{D: []*gf.Disj{d}}
-			if z, _ := one.Implies(isNil); z {
+			if z, _ := one.Implies(gf.FNil(vs.val)); z {
 				continue
 			}
-			if g, _ := one.Implies(wantName); !g {
-				okName = false
-				witness = d.String()
+			if same, _ := one.Implies(gf.FEq(vs.val, vs.upd)); same {
+				continue
 			}
-			cell := cellTermOf(one, gf.Var(cur))
-			if cell == nil || cell.A[0].Key() != gf.Var(info.ObjectOf(revs)).Key() {
+			if g, _ := one.Implies(named(vs.val)); !g {
+				okAll, wit = false, d.String()
+			}
+			cell := cellTermOf(one, vs.val)
+			if cell == nil || cell.A[0].Key() != revsKey {
 				okListed = false
 			}
 		}
-		if okName {
-			c.OK("C12.3-current-revision-choice", name, as.Pos(), "on every path the chosen revision is nil or named by the stored status.currentRevision")
+		if okAll {
+			c.OK("C12.3-current-revision-choice", vs.name, vs.node.Pos(), "on every path the value is nil, the update revision, or a revision named by the stored status.currentRevision")
 		} else {
-			c.Bad("C12.3-current-revision-choice", name, as.Pos(), "required after the assignment: "+isNil.String()+" || "+wantName.String()+"; a path has only "+clip(witness, 600))
+			c.Bad("C12.3-current-revision-choice", vs.name, vs.node.Pos(), "a path gives the current revision a value that is neither the update revision nor named by the stored status.currentRevision: "+clip(wit, 600))
 		}
-		c.Check(okListed, "C12.3-current-revision-choice-listed", name, as.Pos(), "chosen from the listed revisions", "the current revision is not one of the listed revisions")
-		return true
-	})
-	c.Floor("C12.3-current-revision-choice", n, 2)
+		c.Check(okListed, "C12.3-current-revision-choice-listed", vs.name, vs.node.Pos(), "chosen from the listed revisions", "the current revision is not one of the listed revisions")
+	}
+	// found means used: from a test `<listed revision>.Name == set.Status.CurrentRevision` that holds, the fall-back to
+	// the update revision is not reachable any more
+	nTests := 0
+	for _, b := range fn.CFG.Blocks {
+		if !b.Live {
+			continue
+		}
+		cond := fn.Cond(b)
+		if cond == nil {
+			continue
+		}
+		be, ok := ast.Unparen(cond).(*ast.BinaryExpr)
+		if !ok || be.Op != token.EQL {
+			continue
+		}
+		es := an.EdgeStates(b)
+		if len(es) == 0 || !es[0].Reachable() {
+			continue
+		}
+		isTest := false
+		for _, pair := range [][2]ast.Expr{{be.X, be.Y}, {be.Y, be.X}} {
+			lt, rt := fn.Term(pair[0]), fn.Term(pair[1])
+			if lt.K == 'f' && lt.S == "Name" && fieldBase(lt, "Name") != nil && isNamed(info.TypeOf(pair[0]), "", "") == false {
+				// the other side is the stored name (as written, or a helper's parameter bound to it)
+				if rt.Key() == stored.Key() {
+					isTest = true
+				} else if same, _ := es[0].Implies(gf.FEq(rt, stored)); same {
+					isTest = true
+				}
+			}
+		}
+		if !isTest {
+			continue
+		}
+		nTests++
+		aT := fn.FromBlock(b.Succs[0], es[0])
+		for _, fb := range fallbacks {
+			c.Check(!aT.StateBefore(fb).Reachable(), "C12.3-found-means-used", fmt.Sprintf("%s: fall-back at %s after a listed revision with the stored name was found", fi.Obj.Name(), c.P.Pos(fb.Pos())), fb.Pos(),
+				"unreachable once a listed revision named by status.currentRevision has been found", "the current revision can fall back to the update revision although a listed revision carries the stored name")
+		}
+	}
+	c.Floor("C12.3-current-revision-name-tests", nTests, 1)
 }
 
 // statusWriteGuard: C12.4
